@@ -17,8 +17,9 @@ from vf import common, stdlib_walk as W
 from yaql.language import contexts
 from yaql.language import utils as yutils
 
-RULE = ('(a) every registered definition x fillings x 3 modes (data through '
-        '$ with input conversion on / off, context variables) with mutable '
+RULE = ('(a) every registered definition x fillings x 4 modes (data through '
+        '$ with input conversion on / off, context variables, and tuples '
+        'holding mutable containers with raw output) with mutable '
         'nested containers in every collection-, dict-, set- and '
         'object-typed position; oracle: deep snapshot of the data and of '
         'every context of the host chain before = after (also when the '
@@ -46,10 +47,24 @@ def mutable(v):
     return v
 
 
-def _engine(convert_input):
+def tuple_mixed(v, depth=0):
+    """host data in which immutable tuples hold mutable lists, dicts and
+    sets (and vice versa): tuples at even depth, lists at odd depth"""
+    if isinstance(v, (tuple, list)):
+        items = [tuple_mixed(i, depth + 1) for i in v]
+        return tuple(items) if depth % 2 == 0 else items
+    if isinstance(v, (dict, yutils.FrozenDict)):
+        return {k: tuple_mixed(w, depth + 1) for k, w in v.items()}
+    if isinstance(v, (set, frozenset)):
+        return set(v)
+    return v
+
+
+def _engine(convert_input, convert_output=True):
     return common.engine({'yaql.limitIterators': 300,
                           'yaql.memoryQuota': 10 ** 6,
-                          'yaql.convertInputData': convert_input})
+                          'yaql.convertInputData': convert_input,
+                          'yaql.convertOutputData': convert_output})
 
 
 _S = {}
@@ -172,7 +187,11 @@ def check_sweep(run, case):
         if isinstance(v, collections.abc.Iterator):
             binds[key] = v
             return ('src', '$' + key)
-        data[key] = mutable(v)
+        data[key] = tuple_mixed((mutable(v), [mutable(v)])) \
+            if mode == 'data-rawout' else mutable(v)
+        if mode == 'data-rawout':
+            return ('src', '$.%s[%d]' % (key, len(data) % 2) + (
+                '[0]' if len(data) % 2 else ''))
         return ('src', ('$.' + key) if mode != 'vars' else ('$' + key))
     positional = [place(f) for f in call.positional]
     kw = [(k, place(f)) for k, f in call.kw]
@@ -189,7 +208,9 @@ def check_sweep(run, case):
     for name in ('$hostList', '$hostDict', '$hostSet'):
         host_ids |= set(common.mutable_containers(host[name]))
     del _S['entered'][:]
-    eng = _engine(mode != 'data-raw')
+    # data-rawout: input conversion on, output conversion off - what the
+    # expression returns is what it holds, and that must not be host data
+    eng = _engine(mode != 'data-raw', mode != 'data-rawout')
     try:
         stmt = eng(text)
         if mode == 'vars':
@@ -237,6 +258,52 @@ def check_sweep(run, case):
             run.violate('mutating-result-changes-host', case,
                         '%s: mutating the result changed host data or '
                         'context' % text, input_class=ic)
+
+
+RAW_PROBES = ['$', '$.t', '$.t[0]', '$.t[1].a', 'dict(x => $.t[0]).x',
+              '$.values().toList()', '$.t.select($)', '[$.t[0], $.t[2]]',
+              '$.t.toList()', '$.l', '$.l[0]', '$.l[0][0]', '$.d.k',
+              'let(x => $.t[0]) -> [$x]', '$.t.where(true).first()',
+              '$.t.reverse().last()', '$.d.values().first()',
+              '$.t.take(1) + $.l', '$.t.zip($.l).first()',
+              '$.d.items().first()[1]', 'list($.t[0], $.l).first()']
+
+
+def check_rawout(run, case):
+    """raw results (output conversion off, input conversion on) never hold
+    the host's own mutable containers"""
+    text = RAW_PROBES[case['probe'] % len(RAW_PROBES)]
+    data = {'t': ([1, 2], {'a': [3]}, {4}), 'l': [([5], {'b': (6, [7])})],
+            'd': {'k': ([8],)}}
+    if case.get('top') == 'tuple':
+        data = (data['t'], data['l'], data['d'])
+        text = text.replace('$.t', '$[0]').replace('$.l', '$[1]').replace(
+            '$.d', '$[2]').replace('$.values().toList()', '$.toList()')
+    before = common.snapshot(data)
+    host_ids = set(common.mutable_containers(data))
+    try:
+        out = ('ok', _engine(True, False)(text).evaluate(
+            data=data, context=common.child()))
+    except Exception as e:   # noqa
+        out = ('exc', e)
+    run.case(case, out[0] == 'ok', cls=['raw-output-probe'])
+    if out[0] != 'ok':
+        return
+    res = out[1]
+    if isinstance(res, collections.abc.Iterator):
+        res = list(res)
+    shared = shared_containers(res, host_ids)
+    if shared:
+        run.violate('result-aliases-host-data', case,
+                    '%s on %r returned a structure containing the very %s '
+                    'object(s) of the host' % (text, data, shared),
+                    input_class='rawout')
+        return
+    mutate_result(res)
+    if common.snapshot(data) != before:
+        run.violate('mutating-result-changes-host', case,
+                    '%s: mutating the result changed the host data' % text,
+                    input_class='rawout')
 
 
 # --------------------------------------------------------------------------
@@ -366,7 +433,8 @@ def run_history(run, case):
         run.violate(bad[0], case, bad[1], input_class=bad[2])
 
 
-REPLAY = {'sweep': check_sweep, 'history': run_history}
+REPLAY = {'sweep': check_sweep, 'history': run_history,
+          'rawout': check_rawout}
 
 
 def make_machine(run):
@@ -407,7 +475,7 @@ def _sweep_shard(run, part, parts, fills):
     jobs = []
     for d in W.definitions():
         for f in range(fills):
-            for mode in ('data', 'data-raw', 'vars'):
+            for mode in ('data', 'data-raw', 'vars', 'data-rawout'):
                 jobs.append({'kind': 'sweep', 'def': d.id, 'fill': f,
                              'mode': mode})
     for c in jobs[part::parts]:
@@ -422,6 +490,9 @@ def run(run):
     full = run.tier == 'thorough'
     common.std_context(delegates=True)
     W.definitions()
+    for i in range(len(RAW_PROBES)):
+        for top in ('dict', 'tuple'):
+            check_rawout(run, {'kind': 'rawout', 'probe': i, 'top': top})
     run.shards(_sweep_shard, [(i, 16, 6 if full else 2) for i in range(16)],
                watchdog=120)
     k = 8
